@@ -660,3 +660,911 @@ theorem normal_ext (s o : Term) (hs : Term.Normal s) (ho : Term.Normal o)
       rw [ih o hs' ho' (fun v => by have := h v; rw [expo_cons, expo_cons] at this; omega)]
 
 end Ark.Mle
+namespace Ark.Mle
+
+/-! ## `MvPoly` -/
+
+section Mv
+variable {F : Type} [CommRing F] [DecidableEq F]
+
+/-- `Σ c · Π x_v^e` over a list of `(coefficient, term)` pairs -/
+def sumVal (l : List (F × Term)) (x : List F) : F := (l.map (fun ct => ct.1 * monVal ct.2 x)).sum
+
+omit [DecidableEq F] in
+theorem sumVal_nil (x : List F) : sumVal ([] : List (F × Term)) x = 0 := rfl
+omit [DecidableEq F] in
+theorem sumVal_cons (a : F × Term) (l : List (F × Term)) (x : List F) :
+    sumVal (a :: l) x = a.1 * monVal a.2 x + sumVal l x := by simp [sumVal]
+omit [DecidableEq F] in
+theorem sumVal_append (l l' : List (F × Term)) (x : List F) :
+    sumVal (l ++ l') x = sumVal l x + sumVal l' x := by simp [sumVal]
+omit [DecidableEq F] in
+theorem sumVal_perm {l l' : List (F × Term)} (h : l.Perm l') (x : List F) : sumVal l x = sumVal l' x :=
+  (h.map _).sum_eq
+
+omit [DecidableEq F] in
+theorem mv_foldl_panic (l : List (F × Term)) (x : List F) :
+    l.foldl (fun (acc : Outcome F) ct => do
+      let a ← acc
+      let tv ← Term.evaluate ct.2 x
+      pure (a + ct.1 * tv)) .panic = .panic := by
+  induction l with
+  | nil => rfl
+  | cons a t ih => simpa using ih
+
+omit [DecidableEq F] in
+theorem mv_foldl_ok (l : List (F × Term)) (x : List F) (a : F) :
+    l.foldl (fun (acc : Outcome F) ct => do
+      let a ← acc
+      let tv ← Term.evaluate ct.2 x
+      pure (a + ct.1 * tv)) (.ok a)
+    = if ∀ ct ∈ l, ∀ vp ∈ ct.2, vp.1 < x.length then .ok (a + sumVal l x) else .panic := by
+  induction l generalizing a with
+  | nil => simp [sumVal_nil]
+  | cons b l ih =>
+    simp only [List.foldl_cons, bind_ok]
+    by_cases hb : ∀ vp ∈ b.2, vp.1 < x.length
+    · rw [term_evaluate_eq, if_pos hb, bind_ok, pure_eq_ok, ih, sumVal_cons, add_assoc]
+      simp only [List.forall_mem_cons, and_iff_right hb]
+    · rw [term_evaluate_eq, if_neg hb, bind_panic, mv_foldl_panic, if_neg]
+      intro h; exact hb (h b (by simp))
+
+theorem sumVal_of_isZero (p : MvPoly F) (h : p.isZero = true) (x : List F) : sumVal p.terms x = 0 := by
+  have hall : ∀ ct ∈ p.terms, ct.1 = 0 := by
+    intro ct hct
+    simp only [MvPoly.isZero, Bool.or_eq_true, List.isEmpty_iff, List.all_eq_true, isZeroF,
+      decide_eq_true_eq] at h
+    rcases h with h | h
+    · rw [h] at hct; simp at hct
+    · exact h ct hct
+  generalize p.terms = l at hall
+  induction l with
+  | nil => rfl
+  | cons a l ih =>
+    rw [sumVal_cons, hall a (by simp), ih (fun ct hct => hall ct (by simp [hct]))]; simp
+
+/-- `evaluate` of a polynomial whose stored variables are all `< numVars` -/
+theorem mv_evaluate_eq (p : MvPoly F) (hv : ∀ ct ∈ p.terms, ∀ vp ∈ ct.2, vp.1 < p.numVars)
+    (x : List F) :
+    p.evaluate x = if p.numVars ≤ x.length then .ok (sumVal p.terms x) else .panic := by
+  unfold MvPoly.evaluate
+  by_cases hx : p.numVars ≤ x.length
+  · have : ∀ ct ∈ p.terms, ∀ vp ∈ ct.2, vp.1 < x.length := fun ct hct vp hvp => by
+      have := hv ct hct vp hvp; omega
+    simp only [assert, ge_iff_le, hx, decide_true, if_true, bind_ok]
+    by_cases hz : p.isZero = true
+    · simp [hz, sumVal_of_isZero p hz x]
+    · simp only [hz]
+      rw [mv_foldl_ok, if_pos this]; simp
+  · simp [assert, hx]
+
+end Mv
+
+end Ark.Mle
+namespace Ark.Mle
+
+section Mv2
+variable {F : Type} [CommRing F] [DecidableEq F]
+
+/-- coefficient of the monomial `t` in a `(coefficient, term)` list: the sum over all its occurrences -/
+def coeffOf (l : List (F × Term)) (t : Term) : F :=
+  ((l.filter (fun ct => decide (ct.2 = t))).map (·.1)).sum
+
+omit [DecidableEq F] in
+theorem coeffOf_nil (t : Term) : coeffOf ([] : List (F × Term)) t = 0 := rfl
+omit [DecidableEq F] in
+theorem coeffOf_cons (a : F × Term) (l : List (F × Term)) (t : Term) :
+    coeffOf (a :: l) t = (if a.2 = t then a.1 else 0) + coeffOf l t := by
+  unfold coeffOf
+  by_cases h : a.2 = t <;> simp [h]
+omit [DecidableEq F] in
+theorem coeffOf_perm {l l' : List (F × Term)} (h : l.Perm l') (t : Term) : coeffOf l t = coeffOf l' t :=
+  ((h.filter _).map _).sum_eq
+
+/-- the well-formedness part of canonicity: normal-form monomials, strictly `cmp`-ascending,
+    all variables below `numVars` -/
+structure MvPoly.WF (p : MvPoly F) : Prop where
+  normal : ∀ ct ∈ p.terms, Term.Normal ct.2
+  sorted : p.terms.Pairwise (fun a b => Term.cmp a.2 b.2 = .lt)
+  vars : ∀ ct ∈ p.terms, ∀ vp ∈ ct.2, vp.1 < p.numVars
+
+/-- canonical polynomial: well formed and without zero coefficients -/
+def MvPoly.Canonical (p : MvPoly F) : Prop := MvPoly.WF p ∧ ∀ ct ∈ p.terms, ct.1 ≠ 0
+
+theorem cmp_lt_trans {a b c : Term} (ha : Term.Normal a) (hb : Term.Normal b) (hc : Term.Normal c)
+    (h1 : Term.cmp a b = .lt) (h2 : Term.cmp b c = .lt) : Term.cmp a c = .lt :=
+  (cmp_lt_iff a c ha hc).2 (((cmp_lt_iff a b ha hb).1 h1).trans ((cmp_lt_iff b c hb hc).1 h2))
+
+theorem cmp_ne_gt_iff {a b : Term} (ha : Term.Normal a) (hb : Term.Normal b) :
+    Term.cmp a b ≠ .gt ↔ Term.cmp a b = .lt ∨ a = b := by
+  rw [← cmp_eq_iff a b ha hb]
+  cases Term.cmp a b <;> simp
+
+theorem cmp_flip {a b : Term} (ha : Term.Normal a) (hb : Term.Normal b) :
+    Term.cmp a b = .gt ↔ Term.cmp b a = .lt := by
+  rw [cmp_gt_iff a b ha hb, cmp_lt_iff b a hb ha]
+
+omit [CommRing F] [DecidableEq F] in
+/-- the sort key of `from_coefficients_vec` is a total preorder on pairs with normal-form terms -/
+theorem leT_total (a b : F × Term) (ha : Term.Normal a.2) (hb : Term.Normal b.2)
+    (h : (Term.cmp a.2 b.2 != .gt) = false) : (Term.cmp b.2 a.2 != .gt) = true := by
+  have : Term.cmp a.2 b.2 = .gt := by simpa using h
+  rw [cmp_flip ha hb] at this
+  simp [this]
+
+omit [CommRing F] [DecidableEq F] in
+theorem leT_trans (a b c : F × Term) (ha : Term.Normal a.2) (hb : Term.Normal b.2)
+    (hc : Term.Normal c.2)
+    (h1 : (Term.cmp a.2 b.2 != .gt) = true) (h2 : (Term.cmp b.2 c.2 != .gt) = true) :
+    (Term.cmp a.2 c.2 != .gt) = true := by
+  have h1' : Term.cmp a.2 b.2 ≠ .gt := by simpa using h1
+  have h2' : Term.cmp b.2 c.2 ≠ .gt := by simpa using h2
+  rw [cmp_ne_gt_iff ha hb] at h1'
+  rw [cmp_ne_gt_iff hb hc] at h2'
+  have : Term.cmp a.2 c.2 ≠ .gt := by
+    rw [cmp_ne_gt_iff ha hc]
+    rcases h1' with h1' | h1' <;> rcases h2' with h2' | h2'
+    · exact Or.inl (cmp_lt_trans ha hb hc h1' h2')
+    · rw [← h2']; exact Or.inl h1'
+    · rw [h1']; exact Or.inl h2'
+    · exact Or.inr (h1'.trans h2')
+  simpa using this
+
+/-! ### `dedupGo` -/
+
+omit [DecidableEq F] in
+theorem dedupGo_sumVal (rest acc : List (F × Term)) (x : List F) :
+    sumVal (MvPoly.dedupGo rest acc) x = sumVal acc x + sumVal rest x := by
+  induction rest generalizing acc with
+  | nil => simp [MvPoly.dedupGo, sumVal_perm (List.reverse_perm acc), sumVal_nil]
+  | cons a rest ih =>
+    obtain ⟨c, t⟩ := a
+    cases acc with
+    | nil => rw [MvPoly.dedupGo, ih]; simp [sumVal_cons, sumVal_nil]
+    | cons b acc =>
+      obtain ⟨pc, pt⟩ := b
+      rw [MvPoly.dedupGo]
+      by_cases h : pt = t
+      · subst h; simp only [if_true, ih, sumVal_cons]; ring
+      · simp only [h, if_false, ih, sumVal_cons]; ring
+
+omit [DecidableEq F] in
+theorem dedupGo_coeffOf (rest acc : List (F × Term)) (u : Term) :
+    coeffOf (MvPoly.dedupGo rest acc) u = coeffOf acc u + coeffOf rest u := by
+  induction rest generalizing acc with
+  | nil => simp [MvPoly.dedupGo, coeffOf_perm (List.reverse_perm acc), coeffOf_nil]
+  | cons a rest ih =>
+    obtain ⟨c, t⟩ := a
+    cases acc with
+    | nil => rw [MvPoly.dedupGo, ih]; simp [coeffOf_cons, coeffOf_nil]
+    | cons b acc =>
+      obtain ⟨pc, pt⟩ := b
+      rw [MvPoly.dedupGo]
+      by_cases h : pt = t
+      · subst h; simp only [if_true, ih, coeffOf_cons]; split_ifs <;> ring
+      · simp only [h, if_false, ih, coeffOf_cons]; ring
+
+omit [DecidableEq F] in
+theorem dedupGo_mem (rest acc : List (F × Term)) :
+    ∀ z ∈ MvPoly.dedupGo rest acc, ∃ y ∈ acc ++ rest, z.2 = y.2 := by
+  induction rest generalizing acc with
+  | nil => intro z hz; exact ⟨z, by simpa [MvPoly.dedupGo] using hz, rfl⟩
+  | cons a rest ih =>
+    obtain ⟨c, t⟩ := a
+    cases acc with
+    | nil =>
+      intro z hz; rw [MvPoly.dedupGo] at hz
+      obtain ⟨y, hy, h⟩ := ih _ z hz
+      exact ⟨y, by simpa using hy, h⟩
+    | cons b acc =>
+      obtain ⟨pc, pt⟩ := b
+      intro z hz; rw [MvPoly.dedupGo] at hz
+      by_cases h : pt = t
+      · subst h
+        simp only [if_true] at hz
+        obtain ⟨y, hy, h⟩ := ih _ z hz
+        simp only [List.cons_append, List.mem_cons, List.mem_append] at hy
+        rcases hy with rfl | hy | hy
+        · exact ⟨(pc, pt), by simp, h⟩
+        · exact ⟨y, by simp [hy], h⟩
+        · exact ⟨y, by simp [hy], h⟩
+      · simp only [h, if_false] at hz
+        obtain ⟨y, hy, h⟩ := ih _ z hz
+        simp only [List.cons_append, List.mem_cons, List.mem_append] at hy
+        refine ⟨y, ?_, h⟩
+        simp only [List.cons_append, List.mem_cons, List.mem_append]
+        tauto
+
+omit [DecidableEq F] in
+theorem dedupGo_sorted (rest acc : List (F × Term))
+    (hNa : ∀ ct ∈ acc, Term.Normal ct.2) (hNr : ∀ ct ∈ rest, Term.Normal ct.2)
+    (hacc : acc.Pairwise (fun a b => Term.cmp b.2 a.2 = .lt))
+    (hrest : rest.Pairwise (fun a b => (Term.cmp a.2 b.2 != .gt) = true))
+    (hhead : ∀ a ∈ acc.head?, ∀ r ∈ rest, (Term.cmp a.2 r.2 != .gt) = true) :
+    (MvPoly.dedupGo rest acc).Pairwise (fun a b => Term.cmp a.2 b.2 = .lt) := by
+  induction rest generalizing acc with
+  | nil => simpa [MvPoly.dedupGo, List.pairwise_reverse] using hacc
+  | cons a rest ih =>
+    obtain ⟨c, t⟩ := a
+    rw [List.pairwise_cons] at hrest
+    have ht : Term.Normal t := hNr (c, t) (by simp)
+    have hNr' : ∀ ct ∈ rest, Term.Normal ct.2 := fun ct h => hNr ct (by simp [h])
+    cases acc with
+    | nil =>
+      rw [MvPoly.dedupGo]
+      refine ih _ ?_ hNr' (by simp) hrest.2 ?_
+      · intro ct hct; simp at hct; subst hct; exact ht
+      · intro a ha r hr; simp at ha; subst ha; exact hrest.1 r hr
+    | cons b acc =>
+      obtain ⟨pc, pt⟩ := b
+      rw [List.pairwise_cons] at hacc
+      have hpt : Term.Normal pt := hNa (pc, pt) (by simp)
+      have hNa' : ∀ ct ∈ acc, Term.Normal ct.2 := fun ct h => hNa ct (by simp [h])
+      rw [MvPoly.dedupGo]
+      by_cases h : pt = t
+      · subst h
+        simp only [if_true]
+        refine ih _ ?_ hNr' (List.pairwise_cons.2 ⟨hacc.1, hacc.2⟩) hrest.2 ?_
+        · intro ct hct
+          rcases List.mem_cons.1 hct with rfl | hct
+          · exact hpt
+          · exact hNa' ct hct
+        · intro a ha r hr; simp at ha; subst ha; exact hrest.1 r hr
+      · simp only [h, if_false]
+        have hlt : Term.cmp pt t = .lt := by
+          have := hhead (pc, pt) (by simp) (c, t) (by simp)
+          have h' : Term.cmp pt t ≠ .gt := by simpa using this
+          rcases (cmp_ne_gt_iff hpt ht).1 h' with h' | h'
+          · exact h'
+          · exact absurd h' h
+        refine ih _ ?_ hNr' (List.pairwise_cons.2 ⟨?_, List.pairwise_cons.2 hacc⟩) hrest.2 ?_
+        · intro ct hct
+          rcases List.mem_cons.1 hct with rfl | hct
+          · exact ht
+          · exact hNa ct hct
+        · intro z hz
+          rcases List.mem_cons.1 hz with rfl | hz
+          · exact hlt
+          · exact cmp_lt_trans (hNa' z hz) hpt ht (hacc.1 z hz) hlt
+        · intro a ha r hr; simp at ha; subst ha; exact hrest.1 r hr
+
+/-! ### `removeZeros` -/
+
+theorem removeZeros_sumVal (l : List (F × Term)) (x : List F) :
+    sumVal (MvPoly.removeZeros l) x = sumVal l x := by
+  induction l with
+  | nil => rfl
+  | cons a l ih =>
+    simp only [MvPoly.removeZeros, isZeroF] at ih ⊢
+    by_cases h : a.1 = 0
+    · simp [h, ih, sumVal_cons]
+    · simp [h, ih, sumVal_cons]
+
+theorem removeZeros_coeffOf (l : List (F × Term)) (t : Term) :
+    coeffOf (MvPoly.removeZeros l) t = coeffOf l t := by
+  induction l with
+  | nil => rfl
+  | cons a l ih =>
+    simp only [MvPoly.removeZeros, isZeroF] at ih ⊢
+    by_cases h : a.1 = 0
+    · simp [h, ih, coeffOf_cons]
+    · simp [h, ih, coeffOf_cons]
+
+theorem removeZeros_mem {l : List (F × Term)} {z : F × Term} :
+    z ∈ MvPoly.removeZeros l ↔ z ∈ l ∧ z.1 ≠ 0 := by
+  simp [MvPoly.removeZeros, isZeroF]
+
+end Mv2
+
+end Ark.Mle
+namespace Ark.Mle
+
+section Mv3
+variable {F : Type} [CommRing F] [DecidableEq F]
+
+/-- the term list stored by `from_coefficients_vec` -/
+def canonTerms (ts : List (F × Term)) : List (F × Term) :=
+  MvPoly.removeZeros (MvPoly.dedupGo
+    (Term.stableSort (fun (x y : F × Term) => Term.cmp x.2 y.2 != .gt) ts) [])
+
+theorem fromCoefficientsVec_eq (nv : Nat) (ts : List (F × Term)) :
+    MvPoly.fromCoefficientsVec nv ts =
+      if ∀ ct ∈ ts, ∀ vp ∈ ct.2, vp.1 < nv then .ok ⟨nv, canonTerms ts⟩ else .panic := by
+  unfold MvPoly.fromCoefficientsVec canonTerms
+  have hperm := stableSort_perm (fun (x y : F × Term) => Term.cmp x.2 y.2 != .gt) ts
+  by_cases h : ∀ ct ∈ ts, ∀ vp ∈ ct.2, vp.1 < nv
+  · have : ((Term.stableSort (fun (x y : F × Term) => Term.cmp x.2 y.2 != .gt) ts).all
+        (fun ct => ct.2.all (fun vp => decide (vp.1 < nv)))) = true := by
+      simp only [List.all_eq_true, decide_eq_true_eq]
+      intro ct hct; exact h ct (hperm.mem_iff.1 hct)
+    simp only [this, assert, if_true, bind_ok, pure_eq_ok, if_pos h]
+  · have : ((Term.stableSort (fun (x y : F × Term) => Term.cmp x.2 y.2 != .gt) ts).all
+        (fun ct => ct.2.all (fun vp => decide (vp.1 < nv)))) = false := by
+      rw [← Bool.not_eq_true]
+      simp only [List.all_eq_true, decide_eq_true_eq]
+      intro h'; exact h (fun ct hct => h' ct (hperm.mem_iff.2 hct))
+    simp only [this, assert, Bool.false_eq_true, if_false, bind_panic, if_neg h]
+
+theorem canonTerms_sumVal (ts : List (F × Term)) (x : List F) :
+    sumVal (canonTerms ts) x = sumVal ts x := by
+  unfold canonTerms
+  rw [removeZeros_sumVal, dedupGo_sumVal, sumVal_perm (stableSort_perm _ ts)]
+  simp [sumVal_nil]
+
+theorem canonTerms_coeffOf (ts : List (F × Term)) (t : Term) :
+    coeffOf (canonTerms ts) t = coeffOf ts t := by
+  unfold canonTerms
+  rw [removeZeros_coeffOf, dedupGo_coeffOf, coeffOf_perm (stableSort_perm _ ts)]
+  simp [coeffOf_nil]
+
+theorem canonTerms_mem (ts : List (F × Term)) :
+    ∀ z ∈ canonTerms ts, z.1 ≠ 0 ∧ ∃ y ∈ ts, z.2 = y.2 := by
+  intro z hz
+  unfold canonTerms at hz
+  obtain ⟨hz, h0⟩ := removeZeros_mem.1 hz
+  obtain ⟨y, hy, h⟩ := dedupGo_mem _ _ z hz
+  exact ⟨h0, y, (stableSort_perm _ ts).mem_iff.1 (by simpa using hy), h⟩
+
+theorem canonTerms_sorted (ts : List (F × Term)) (hN : ∀ ct ∈ ts, Term.Normal ct.2) :
+    (canonTerms ts).Pairwise (fun a b => Term.cmp a.2 b.2 = .lt) := by
+  unfold canonTerms MvPoly.removeZeros
+  apply List.Pairwise.filter
+  have hperm := stableSort_perm (fun (x y : F × Term) => Term.cmp x.2 y.2 != .gt) ts
+  refine dedupGo_sorted _ [] (by simp) (fun ct hct => hN ct (hperm.mem_iff.1 hct)) List.Pairwise.nil ?_
+    (by simp)
+  exact stableSort_sorted _ (fun ct => Term.Normal ct.2) (fun a b => leT_total a b)
+    (fun a b c => leT_trans a b c) ts hN
+
+/-- `from_coefficients_vec` on normal-form terms with variables `< nv`: a canonical polynomial -/
+theorem canonTerms_canonical (nv : Nat) (ts : List (F × Term)) (hN : ∀ ct ∈ ts, Term.Normal ct.2)
+    (hv : ∀ ct ∈ ts, ∀ vp ∈ ct.2, vp.1 < nv) : MvPoly.Canonical (⟨nv, canonTerms ts⟩ : MvPoly F) := by
+  refine ⟨⟨?_, canonTerms_sorted ts hN, ?_⟩, fun ct hct => (canonTerms_mem ts ct hct).1⟩
+  · intro ct hct
+    obtain ⟨_, y, hy, h⟩ := canonTerms_mem ts ct hct
+    rw [h]; exact hN y hy
+  · intro ct hct
+    obtain ⟨_, y, hy, h⟩ := canonTerms_mem ts ct hct
+    rw [h]; exact hv y hy
+
+end Mv3
+
+end Ark.Mle
+namespace Ark.Mle
+
+section Mv4
+variable {F : Type} [CommRing F] [DecidableEq F]
+
+/-! ### `mergeGo` / `add` -/
+
+omit [DecidableEq F] in
+theorem mergeGo_mem (fuel : Nat) (cs os : List (F × Term)) :
+    ∀ z ∈ MvPoly.mergeGo fuel cs os, ∃ y ∈ cs ++ os, z.2 = y.2 := by
+  induction fuel generalizing cs os with
+  | zero => intro z hz; simp [MvPoly.mergeGo] at hz
+  | succ fuel ih =>
+    cases cs with
+    | nil =>
+      cases os with
+      | nil => intro z hz; simp [MvPoly.mergeGo] at hz
+      | cons o os =>
+        intro z hz
+        simp only [MvPoly.mergeGo, List.mem_cons] at hz
+        rcases hz with rfl | hz
+        · exact ⟨z, by simp, rfl⟩
+        · obtain ⟨y, hy, h⟩ := ih [] os z hz
+          exact ⟨y, by simp at hy; simp [hy], h⟩
+    | cons c cs =>
+      cases os with
+      | nil =>
+        intro z hz
+        simp only [MvPoly.mergeGo, List.mem_cons] at hz
+        rcases hz with rfl | hz
+        · exact ⟨z, by simp, rfl⟩
+        · obtain ⟨y, hy, h⟩ := ih cs [] z hz
+          exact ⟨y, by simp at hy; simp [hy], h⟩
+      | cons o os =>
+        intro z hz
+        simp only [MvPoly.mergeGo] at hz
+        cases hc : Term.cmp c.2 o.2 <;> rw [hc] at hz <;> simp only [List.mem_cons] at hz
+        · rcases hz with rfl | hz
+          · exact ⟨z, by simp, rfl⟩
+          · obtain ⟨y, hy, h⟩ := ih cs (o :: os) z hz
+            refine ⟨y, ?_, h⟩
+            simp only [List.mem_append, List.mem_cons] at hy ⊢; tauto
+        · rcases hz with rfl | hz
+          · exact ⟨c, by simp, rfl⟩
+          · obtain ⟨y, hy, h⟩ := ih cs os z hz
+            refine ⟨y, ?_, h⟩
+            simp only [List.mem_append, List.mem_cons] at hy ⊢; tauto
+        · rcases hz with rfl | hz
+          · exact ⟨z, by simp, rfl⟩
+          · obtain ⟨y, hy, h⟩ := ih (c :: cs) os z hz
+            refine ⟨y, ?_, h⟩
+            simp only [List.mem_append, List.mem_cons] at hy ⊢; tauto
+
+omit [DecidableEq F] in
+theorem mergeGo_sumVal (fuel : Nat) (cs os : List (F × Term)) (hf : cs.length + os.length ≤ fuel)
+    (hNc : ∀ ct ∈ cs, Term.Normal ct.2) (hNo : ∀ ct ∈ os, Term.Normal ct.2) (x : List F) :
+    sumVal (MvPoly.mergeGo fuel cs os) x = sumVal cs x + sumVal os x := by
+  induction fuel generalizing cs os with
+  | zero =>
+    have h1 : cs = [] := List.length_eq_zero_iff.1 (by omega)
+    have h2 : os = [] := List.length_eq_zero_iff.1 (by omega)
+    subst h1 h2; simp [MvPoly.mergeGo, sumVal_nil]
+  | succ fuel ih =>
+    cases cs with
+    | nil =>
+      cases os with
+      | nil => simp [MvPoly.mergeGo, sumVal_nil]
+      | cons o os =>
+        simp only [MvPoly.mergeGo, sumVal_cons]
+        rw [ih [] os (by simp at hf ⊢; omega) (by simp) (fun ct h => hNo ct (by simp [h]))]
+        simp [sumVal_nil]
+    | cons c cs =>
+      cases os with
+      | nil =>
+        simp only [MvPoly.mergeGo, sumVal_cons]
+        rw [ih cs [] (by simp at hf ⊢; omega) (fun ct h => hNc ct (by simp [h])) (by simp)]
+        simp [sumVal_nil]
+      | cons o os =>
+        have hNc' : ∀ ct ∈ cs, Term.Normal ct.2 := fun ct h => hNc ct (by simp [h])
+        have hNo' : ∀ ct ∈ os, Term.Normal ct.2 := fun ct h => hNo ct (by simp [h])
+        simp only [List.length_cons] at hf
+        simp only [MvPoly.mergeGo]
+        cases hc : Term.cmp c.2 o.2 <;> simp only [sumVal_cons]
+        · rw [ih cs (o :: os) (by simp; omega) hNc' hNo, sumVal_cons]; ring
+        · have : c.2 = o.2 := (cmp_eq_iff _ _ (hNc c (by simp)) (hNo o (by simp))).1 hc
+          rw [ih cs os (by omega) hNc' hNo', this]; ring
+        · rw [ih (c :: cs) os (by simp; omega) hNc hNo', sumVal_cons]; ring
+
+omit [DecidableEq F] in
+theorem mergeGo_coeffOf (fuel : Nat) (cs os : List (F × Term)) (hf : cs.length + os.length ≤ fuel)
+    (hNc : ∀ ct ∈ cs, Term.Normal ct.2) (hNo : ∀ ct ∈ os, Term.Normal ct.2) (t : Term) :
+    coeffOf (MvPoly.mergeGo fuel cs os) t = coeffOf cs t + coeffOf os t := by
+  induction fuel generalizing cs os with
+  | zero =>
+    have h1 : cs = [] := List.length_eq_zero_iff.1 (by omega)
+    have h2 : os = [] := List.length_eq_zero_iff.1 (by omega)
+    subst h1 h2; simp [MvPoly.mergeGo, coeffOf_nil]
+  | succ fuel ih =>
+    cases cs with
+    | nil =>
+      cases os with
+      | nil => simp [MvPoly.mergeGo, coeffOf_nil]
+      | cons o os =>
+        simp only [MvPoly.mergeGo, coeffOf_cons]
+        rw [ih [] os (by simp at hf ⊢; omega) (by simp) (fun ct h => hNo ct (by simp [h]))]
+        simp [coeffOf_nil]
+    | cons c cs =>
+      cases os with
+      | nil =>
+        simp only [MvPoly.mergeGo, coeffOf_cons]
+        rw [ih cs [] (by simp at hf ⊢; omega) (fun ct h => hNc ct (by simp [h])) (by simp)]
+        simp [coeffOf_nil]
+      | cons o os =>
+        have hNc' : ∀ ct ∈ cs, Term.Normal ct.2 := fun ct h => hNc ct (by simp [h])
+        have hNo' : ∀ ct ∈ os, Term.Normal ct.2 := fun ct h => hNo ct (by simp [h])
+        simp only [List.length_cons] at hf
+        simp only [MvPoly.mergeGo]
+        cases hc : Term.cmp c.2 o.2 <;> simp only [coeffOf_cons]
+        · rw [ih cs (o :: os) (by simp; omega) hNc' hNo, coeffOf_cons]; ring
+        · have : c.2 = o.2 := (cmp_eq_iff _ _ (hNc c (by simp)) (hNo o (by simp))).1 hc
+          rw [ih cs os (by omega) hNc' hNo', this]; split_ifs <;> ring
+        · rw [ih (c :: cs) os (by simp; omega) hNc hNo', coeffOf_cons]; ring
+
+omit [DecidableEq F] in
+theorem mergeGo_sorted (fuel : Nat) (cs os : List (F × Term))
+    (hNc : ∀ ct ∈ cs, Term.Normal ct.2) (hNo : ∀ ct ∈ os, Term.Normal ct.2)
+    (hcs : cs.Pairwise (fun a b => Term.cmp a.2 b.2 = .lt))
+    (hos : os.Pairwise (fun a b => Term.cmp a.2 b.2 = .lt)) :
+    (MvPoly.mergeGo fuel cs os).Pairwise (fun a b => Term.cmp a.2 b.2 = .lt) := by
+  induction fuel generalizing cs os with
+  | zero => simp [MvPoly.mergeGo]
+  | succ fuel ih =>
+    cases cs with
+    | nil =>
+      cases os with
+      | nil => simp [MvPoly.mergeGo]
+      | cons o os =>
+        simp only [MvPoly.mergeGo]
+        rw [List.pairwise_cons] at hos ⊢
+        refine ⟨fun z hz => ?_, ih [] os (by simp) (fun ct h => hNo ct (by simp [h])) .nil hos.2⟩
+        obtain ⟨y, hy, h⟩ := mergeGo_mem fuel [] os z hz
+        rw [h]; exact hos.1 y (by simpa using hy)
+    | cons c cs =>
+      cases os with
+      | nil =>
+        simp only [MvPoly.mergeGo]
+        rw [List.pairwise_cons] at hcs ⊢
+        refine ⟨fun z hz => ?_, ih cs [] (fun ct h => hNc ct (by simp [h])) (by simp) hcs.2 .nil⟩
+        obtain ⟨y, hy, h⟩ := mergeGo_mem fuel cs [] z hz
+        rw [h]; exact hcs.1 y (by simpa using hy)
+      | cons o os =>
+        have hNc' : ∀ ct ∈ cs, Term.Normal ct.2 := fun ct h => hNc ct (by simp [h])
+        have hNo' : ∀ ct ∈ os, Term.Normal ct.2 := fun ct h => hNo ct (by simp [h])
+        have hc' : Term.Normal c.2 := hNc c (by simp)
+        have ho' : Term.Normal o.2 := hNo o (by simp)
+        have hcs' := List.pairwise_cons.1 hcs
+        have hos' := List.pairwise_cons.1 hos
+        simp only [MvPoly.mergeGo]
+        cases hc : Term.cmp c.2 o.2 <;> simp only [] <;> rw [List.pairwise_cons]
+        · refine ⟨fun z hz => ?_, ih cs (o :: os) hNc' hNo hcs'.2 hos⟩
+          obtain ⟨y, hy, h⟩ := mergeGo_mem fuel cs (o :: os) z hz
+          rw [h]
+          simp only [List.mem_append, List.mem_cons] at hy
+          rcases hy with hy | rfl | hy
+          · exact hcs'.1 y hy
+          · exact hc
+          · exact cmp_lt_trans hc' ho' (hNo' y hy) hc (hos'.1 y hy)
+        · have hco : c.2 = o.2 := (cmp_eq_iff _ _ hc' ho').1 hc
+          refine ⟨fun z hz => ?_, ih cs os hNc' hNo' hcs'.2 hos'.2⟩
+          obtain ⟨y, hy, h⟩ := mergeGo_mem fuel cs os z hz
+          rw [h]
+          simp only [List.mem_append] at hy
+          rcases hy with hy | hy
+          · exact hcs'.1 y hy
+          · show Term.cmp c.2 y.2 = .lt
+            rw [hco]; exact hos'.1 y hy
+        · have hoc : Term.cmp o.2 c.2 = .lt := (cmp_flip hc' ho').1 hc
+          refine ⟨fun z hz => ?_, ih (c :: cs) os hNc hNo' hcs hos'.2⟩
+          obtain ⟨y, hy, h⟩ := mergeGo_mem fuel (c :: cs) os z hz
+          rw [h]
+          simp only [List.mem_append, List.mem_cons] at hy
+          rcases hy with (rfl | hy) | hy
+          · exact hoc
+          · exact cmp_lt_trans ho' hc' (hNc' y hy) hoc (hcs'.1 y hy)
+          · exact hos'.1 y hy
+
+end Mv4
+
+end Ark.Mle
+namespace Ark.Mle
+
+section Mv5
+variable {F : Type} [CommRing F] [DecidableEq F]
+
+omit [CommRing F] [DecidableEq F] in
+theorem MvPoly.WF.mono {p : MvPoly F} (h : MvPoly.WF p) (n : Nat) (hn : p.numVars ≤ n) :
+    MvPoly.WF (⟨n, p.terms⟩ : MvPoly F) :=
+  ⟨h.normal, h.sorted, fun ct hct vp hvp => Nat.lt_of_lt_of_le (h.vars ct hct vp hvp) hn⟩
+
+/-- `add` of well-formed operands (zero coefficients allowed in the operands) is canonical -/
+theorem add_canonical (s o : MvPoly F) (hs : MvPoly.WF s) (ho : MvPoly.WF o) :
+    MvPoly.Canonical (s.add o) := by
+  unfold MvPoly.add
+  refine ⟨⟨?_, ?_, ?_⟩, fun ct hct => (removeZeros_mem.1 hct).2⟩
+  · intro ct hct
+    obtain ⟨y, hy, h⟩ := mergeGo_mem _ _ _ ct (removeZeros_mem.1 hct).1
+    rw [h]
+    rcases List.mem_append.1 hy with hy | hy
+    · exact hs.normal y hy
+    · exact ho.normal y hy
+  · exact List.Pairwise.filter _ (mergeGo_sorted _ _ _ hs.normal ho.normal hs.sorted ho.sorted)
+  · intro ct hct vp hvp
+    obtain ⟨y, hy, h⟩ := mergeGo_mem _ _ _ ct (removeZeros_mem.1 hct).1
+    rw [h] at hvp
+    show vp.1 < max s.numVars o.numVars
+    rcases List.mem_append.1 hy with hy | hy
+    · have := hs.vars y hy vp hvp; omega
+    · have := ho.vars y hy vp hvp; omega
+
+theorem add_sumVal (s o : MvPoly F) (hs : ∀ ct ∈ s.terms, Term.Normal ct.2)
+    (ho : ∀ ct ∈ o.terms, Term.Normal ct.2) (x : List F) :
+    sumVal (s.add o).terms x = sumVal s.terms x + sumVal o.terms x := by
+  unfold MvPoly.add
+  rw [removeZeros_sumVal, mergeGo_sumVal _ _ _ (Nat.le_refl _) hs ho]
+
+theorem add_coeffOf (s o : MvPoly F) (hs : ∀ ct ∈ s.terms, Term.Normal ct.2)
+    (ho : ∀ ct ∈ o.terms, Term.Normal ct.2) (t : Term) :
+    coeffOf (s.add o).terms t = coeffOf s.terms t + coeffOf o.terms t := by
+  unfold MvPoly.add
+  rw [removeZeros_coeffOf, mergeGo_coeffOf _ _ _ (Nat.le_refl _) hs ho]
+
+theorem add_evaluate (s o : MvPoly F) (hs : MvPoly.WF s) (ho : MvPoly.WF o) (x : List F) :
+    (s.add o).evaluate x = oadd (s.evaluate x) (o.evaluate x) := by
+  rw [mv_evaluate_eq _ (add_canonical s o hs ho).1.vars, mv_evaluate_eq _ hs.vars,
+    mv_evaluate_eq _ ho.vars, add_sumVal s o hs.normal ho.normal]
+  have : (s.add o).numVars = max s.numVars o.numVars := rfl
+  rw [this]
+  by_cases h1 : s.numVars ≤ x.length <;> by_cases h2 : o.numVars ≤ x.length
+  · rw [if_pos h1, if_pos h2, if_pos (by omega)]; rfl
+  · rw [if_pos h1, if_neg h2, if_neg (by omega)]; rfl
+  · rw [if_neg h1, if_pos h2, if_neg (by omega)]; rfl
+  · rw [if_neg h1, if_neg h2, if_neg (by omega)]; rfl
+
+/-! ### `neg`, scaling, `sub`, `addScaled` -/
+
+omit [DecidableEq F] in
+theorem sumVal_map_coeff (g : F → F) (k : F) (hg : ∀ c, g c = k * c) (l : List (F × Term)) (x : List F) :
+    sumVal (l.map (fun ct => (g ct.1, ct.2))) x = k * sumVal l x := by
+  induction l with
+  | nil => simp [sumVal_nil]
+  | cons a l ih => rw [List.map_cons, sumVal_cons, sumVal_cons, ih]; simp only [hg]; ring
+
+omit [DecidableEq F] in
+theorem coeffOf_map_coeff (g : F → F) (k : F) (hg : ∀ c, g c = k * c) (l : List (F × Term)) (t : Term) :
+    coeffOf (l.map (fun ct => (g ct.1, ct.2))) t = k * coeffOf l t := by
+  induction l with
+  | nil => simp [coeffOf_nil]
+  | cons a l ih => rw [List.map_cons, coeffOf_cons, coeffOf_cons, ih]; simp only [hg]; split_ifs <;> ring
+
+omit [CommRing F] [DecidableEq F] in
+theorem map_coeff_wf (g : F → F) (p : MvPoly F) (h : MvPoly.WF p) :
+    MvPoly.WF (⟨p.numVars, p.terms.map (fun ct => (g ct.1, ct.2))⟩ : MvPoly F) := by
+  refine ⟨?_, ?_, ?_⟩
+  · intro ct hct
+    obtain ⟨y, hy, rfl⟩ := List.mem_map.1 hct
+    exact h.normal y hy
+  · exact List.pairwise_map.2 h.sorted
+  · intro ct hct
+    obtain ⟨y, hy, rfl⟩ := List.mem_map.1 hct
+    exact h.vars y hy
+
+omit [DecidableEq F] in
+theorem neg_wf (p : MvPoly F) (h : MvPoly.WF p) : MvPoly.WF p.neg := map_coeff_wf (fun c => -c) p h
+
+omit [DecidableEq F] in
+theorem neg_canonical (p : MvPoly F) (h : MvPoly.Canonical p) : MvPoly.Canonical p.neg := by
+  refine ⟨neg_wf p h.1, ?_⟩
+  intro ct hct
+  obtain ⟨y, hy, rfl⟩ := List.mem_map.1 hct
+  exact neg_ne_zero.2 (h.2 y hy)
+
+omit [DecidableEq F] in
+theorem neg_sumVal (p : MvPoly F) (x : List F) : sumVal p.neg.terms x = - sumVal p.terms x := by
+  have := sumVal_map_coeff (fun c : F => -c) (-1) (fun c => by ring) p.terms x
+  simpa [MvPoly.neg] using this
+
+omit [DecidableEq F] in
+theorem neg_coeffOf (p : MvPoly F) (t : Term) : coeffOf p.neg.terms t = - coeffOf p.terms t := by
+  have := coeffOf_map_coeff (fun c : F => -c) (-1) (fun c => by ring) p.terms t
+  simpa [MvPoly.neg] using this
+
+theorem neg_evaluate (p : MvPoly F) (h : MvPoly.WF p) (x : List F) :
+    p.neg.evaluate x = oneg (p.evaluate x) := by
+  rw [mv_evaluate_eq _ (neg_wf p h).vars, mv_evaluate_eq _ h.vars, neg_sumVal]
+  have : p.neg.numVars = p.numVars := rfl
+  rw [this]
+  by_cases h1 : p.numVars ≤ x.length
+  · simp only [if_pos h1]; rfl
+  · simp only [if_neg h1]; rfl
+
+theorem sub_canonical (s o : MvPoly F) (hs : MvPoly.WF s) (ho : MvPoly.WF o) :
+    MvPoly.Canonical (s.sub o) := add_canonical s o.neg hs (neg_wf o ho)
+
+theorem sub_sumVal (s o : MvPoly F) (hs : ∀ ct ∈ s.terms, Term.Normal ct.2)
+    (ho : ∀ ct ∈ o.terms, Term.Normal ct.2) (x : List F) :
+    sumVal (s.sub o).terms x = sumVal s.terms x - sumVal o.terms x := by
+  unfold MvPoly.sub
+  rw [add_sumVal s o.neg hs, neg_sumVal, sub_eq_add_neg]
+  intro ct hct
+  obtain ⟨y, hy, rfl⟩ := List.mem_map.1 hct
+  exact ho y hy
+
+theorem sub_coeffOf (s o : MvPoly F) (hs : ∀ ct ∈ s.terms, Term.Normal ct.2)
+    (ho : ∀ ct ∈ o.terms, Term.Normal ct.2) (t : Term) :
+    coeffOf (s.sub o).terms t = coeffOf s.terms t - coeffOf o.terms t := by
+  unfold MvPoly.sub
+  rw [add_coeffOf s o.neg hs, neg_coeffOf, sub_eq_add_neg]
+  intro ct hct
+  obtain ⟨y, hy, rfl⟩ := List.mem_map.1 hct
+  exact ho y hy
+
+theorem sub_evaluate (s o : MvPoly F) (hs : MvPoly.WF s) (ho : MvPoly.WF o) (x : List F) :
+    (s.sub o).evaluate x = osub (s.evaluate x) (o.evaluate x) := by
+  unfold MvPoly.sub
+  rw [add_evaluate s o.neg hs (neg_wf o ho), neg_evaluate o ho]
+  cases s.evaluate x <;> cases o.evaluate x <;> simp [oadd, osub, oneg, sub_eq_add_neg]
+
+theorem addScaled_canonical (s : MvPoly F) (f : F) (o : MvPoly F) (hs : MvPoly.WF s) (ho : MvPoly.WF o) :
+    MvPoly.Canonical (s.addScaled f o) :=
+  add_canonical s _ hs (map_coeff_wf (fun c => c * f) o ho)
+
+theorem addScaled_sumVal (s : MvPoly F) (f : F) (o : MvPoly F) (hs : ∀ ct ∈ s.terms, Term.Normal ct.2)
+    (ho : ∀ ct ∈ o.terms, Term.Normal ct.2) (x : List F) :
+    sumVal (s.addScaled f o).terms x = sumVal s.terms x + f * sumVal o.terms x := by
+  unfold MvPoly.addScaled
+  rw [add_sumVal s _ hs]
+  · show _ + sumVal (o.terms.map (fun ct => (ct.1 * f, ct.2))) x = _
+    rw [sumVal_map_coeff (fun c => c * f) f (fun c => mul_comm c f)]
+  · intro ct hct
+    obtain ⟨y, hy, rfl⟩ := List.mem_map.1 hct
+    exact ho y hy
+
+theorem addScaled_coeffOf (s : MvPoly F) (f : F) (o : MvPoly F) (hs : ∀ ct ∈ s.terms, Term.Normal ct.2)
+    (ho : ∀ ct ∈ o.terms, Term.Normal ct.2) (t : Term) :
+    coeffOf (s.addScaled f o).terms t = coeffOf s.terms t + f * coeffOf o.terms t := by
+  unfold MvPoly.addScaled
+  rw [add_coeffOf s _ hs]
+  · show _ + coeffOf (o.terms.map (fun ct => (ct.1 * f, ct.2))) t = _
+    rw [coeffOf_map_coeff (fun c => c * f) f (fun c => mul_comm c f)]
+  · intro ct hct
+    obtain ⟨y, hy, rfl⟩ := List.mem_map.1 hct
+    exact ho y hy
+
+theorem addScaled_evaluate (s : MvPoly F) (f : F) (o : MvPoly F) (hs : MvPoly.WF s) (ho : MvPoly.WF o)
+    (x : List F) :
+    (s.addScaled f o).evaluate x = oaddScaled (s.evaluate x) f (o.evaluate x) := by
+  have hso := map_coeff_wf (fun c => c * f) o ho
+  unfold MvPoly.addScaled
+  rw [add_evaluate s _ hs hso, mv_evaluate_eq _ hso.vars, mv_evaluate_eq _ ho.vars]
+  show oadd _ (if o.numVars ≤ x.length then
+    .ok (sumVal (o.terms.map (fun ct => (ct.1 * f, ct.2))) x) else .panic) = _
+  rw [sumVal_map_coeff (fun c => c * f) f (fun c => mul_comm c f)]
+  cases s.evaluate x <;> by_cases h : o.numVars ≤ x.length <;> simp [oadd, oaddScaled, h]
+
+/-! ### `isZero`, `degree` -/
+
+theorem isZero_iff_of_canonical (p : MvPoly F) (h : MvPoly.Canonical p) :
+    p.isZero = true ↔ p.terms = [] := by
+  unfold MvPoly.isZero
+  constructor
+  · intro hz
+    simp only [Bool.or_eq_true, List.isEmpty_iff, List.all_eq_true, isZeroF, decide_eq_true_eq] at hz
+    rcases hz with hz | hz
+    · exact hz
+    · cases hp : p.terms with
+      | nil => rfl
+      | cons a l => exact absurd (hz a (by simp [hp])) (h.2 a (by simp [hp]))
+  · intro hz; simp [hz]
+
+omit [CommRing F] [DecidableEq F] in
+theorem foldl_max_ge (l : List Nat) (n : Nat) :
+    n ≤ l.foldl max n ∧ (∀ d ∈ l, d ≤ l.foldl max n) ∧ (l.foldl max n = n ∨ l.foldl max n ∈ l) := by
+  induction l generalizing n with
+  | nil => simp
+  | cons a l ih =>
+    obtain ⟨h1, h2, h3⟩ := ih (max n a)
+    simp only [List.foldl_cons]
+    refine ⟨by omega, ?_, ?_⟩
+    · intro d hd
+      rcases List.mem_cons.1 hd with rfl | hd
+      · omega
+      · exact h2 d hd
+    · rcases h3 with h3 | h3
+      · rw [h3]
+        rcases Nat.le_total n a with h | h
+        · right; rw [Nat.max_eq_right h]; simp
+        · left; exact Nat.max_eq_left h
+      · right; exact List.mem_cons_of_mem _ h3
+
+omit [CommRing F] [DecidableEq F] in
+theorem degree_spec (p : MvPoly F) :
+    (∀ ct ∈ p.terms, Term.degree ct.2 ≤ p.degree) ∧
+    (p.terms = [] → p.degree = 0) ∧
+    (p.terms ≠ [] → ∃ ct ∈ p.terms, Term.degree ct.2 = p.degree) := by
+  unfold MvPoly.degree
+  obtain ⟨h1, h2, h3⟩ := foldl_max_ge (p.terms.map (fun ct => Term.degree ct.2)) 0
+  refine ⟨fun ct hct => h2 _ (List.mem_map.2 ⟨ct, hct, rfl⟩), fun h => by simp [h], fun hne => ?_⟩
+  rcases h3 with h3 | h3
+  · cases hp : p.terms with
+    | nil => exact absurd hp hne
+    | cons a l =>
+      refine ⟨a, by simp, ?_⟩
+      have := h2 (Term.degree a.2) (List.mem_map.2 ⟨a, by simp [hp], rfl⟩)
+      rw [hp] at h3 this; omega
+  · obtain ⟨ct, hct, h⟩ := List.mem_map.1 h3
+    exact ⟨ct, hct, h⟩
+
+end Mv5
+
+end Ark.Mle
+namespace Ark.Mle
+
+/-! ## wrap-up lemmas used by the property file -/
+
+theorem isConstant_eq (t : Term) : Term.isConstant t = decide (Term.degree t = 0) := by
+  unfold Term.isConstant
+  cases t with
+  | nil => simp [Term.degree]
+  | cons a t => simp; rfl
+
+theorem new_unique (m : List (Nat × Nat)) (t : Term) (ht : Term.Normal t)
+    (h : ∀ v, expo t v = expo m v) : t = Term.new m :=
+  normal_ext t (Term.new m) ht (new_normal m) (fun v => by rw [h v, expo_new])
+
+theorem new_eq_iff (m1 m2 : List (Nat × Nat)) :
+    Term.new m1 = Term.new m2 ↔ ∀ v, expo m1 v = expo m2 v := by
+  constructor
+  · intro h v; rw [← expo_new m1, h, expo_new]
+  · intro h
+    exact normal_ext _ _ (new_normal m1) (new_normal m2) (fun v => by rw [expo_new, expo_new, h v])
+
+theorem new_of_normal (t : Term) (ht : Term.Normal t) : Term.new t = t :=
+  (new_unique t t ht (fun _ => rfl)).symm
+
+theorem term_new_evaluate {F : Type} [CommMonoid F] [Zero F] (m : List (Nat × Nat)) (x : List F) :
+    Term.evaluate (Term.new m) x =
+      if ∀ vp ∈ m, vp.2 = 0 ∨ vp.1 < x.length then .ok (monVal m x) else .panic := by
+  rw [term_evaluate_eq, monVal_new]
+  by_cases h : ∀ vp ∈ m, vp.2 = 0 ∨ vp.1 < x.length
+  · rw [if_pos h, if_pos ((new_vars_lt_iff m x.length).2 h)]
+  · rw [if_neg h, if_neg (fun h' => h ((new_vars_lt_iff m x.length).1 h'))]
+
+section Mv6
+variable {F : Type} [CommRing F] [DecidableEq F]
+
+/-- raw `(coefficient, factor list)` pairs with every factor list passed through `SparseTerm::new` -/
+def newTerms (ts : List (F × List (Nat × Nat))) : List (F × Term) :=
+  ts.map (fun cm => (cm.1, Term.new cm.2))
+
+omit [DecidableEq F] in
+theorem newTerms_sumVal (ts : List (F × List (Nat × Nat))) (x : List F) :
+    sumVal (newTerms ts) x = sumVal ts x := by
+  induction ts with
+  | nil => rfl
+  | cons a ts ih =>
+    unfold newTerms at ih ⊢
+    rw [List.map_cons, sumVal_cons, sumVal_cons, ih, monVal_new]
+
+omit [CommRing F] [DecidableEq F] in
+theorem newTerms_normal (ts : List (F × List (Nat × Nat))) : ∀ ct ∈ newTerms ts, Term.Normal ct.2 := by
+  intro ct hct
+  obtain ⟨y, _, rfl⟩ := List.mem_map.1 hct
+  exact new_normal y.2
+
+omit [CommRing F] [DecidableEq F] in
+theorem newTerms_vars_iff (ts : List (F × List (Nat × Nat))) (nv : Nat) :
+    (∀ ct ∈ newTerms ts, ∀ vp ∈ ct.2, vp.1 < nv) ↔ ∀ cm ∈ ts, ∀ vp ∈ cm.2, vp.2 = 0 ∨ vp.1 < nv := by
+  unfold newTerms
+  simp only [List.mem_map, forall_exists_index, and_imp]
+  constructor
+  · intro h cm hcm
+    exact (new_vars_lt_iff cm.2 nv).1 (h _ cm hcm rfl)
+  · rintro h ct cm hcm rfl
+    exact (new_vars_lt_iff cm.2 nv).2 (h cm hcm)
+
+omit [DecidableEq F] in
+/-- coefficient of the normal-form monomial `t` in a raw term list: sum over all raw terms whose
+    exponent vector is that of `t` -/
+theorem newTerms_coeffOf (ts : List (F × List (Nat × Nat))) (t : Term) :
+    coeffOf (newTerms ts) t =
+      ((ts.filter (fun cm => decide (Term.new cm.2 = t))).map (·.1)).sum := by
+  induction ts with
+  | nil => rfl
+  | cons a ts ih =>
+    unfold newTerms at ih ⊢
+    rw [List.map_cons, coeffOf_cons, ih]
+    by_cases h : Term.new a.2 = t <;> simp [h]
+
+/-- canonical polynomials evaluate to `Σ c·Π x_v^e` exactly on points of length `≥ numVars` -/
+theorem canonical_evaluate (p : MvPoly F) (h : MvPoly.WF p) (x : List F) :
+    p.evaluate x = if p.numVars ≤ x.length then .ok (sumVal p.terms x) else .panic :=
+  mv_evaluate_eq p h.vars x
+
+end Mv6
+
+end Ark.Mle
+namespace Ark.Mle
+
+section Mv7
+variable {F : Type} [CommRing F]
+
+theorem coeffOf_eq_zero (l : List (F × Term)) (t : Term) (h : ∀ ct ∈ l, ct.2 ≠ t) : coeffOf l t = 0 := by
+  induction l with
+  | nil => rfl
+  | cons a l ih =>
+    rw [coeffOf_cons, if_neg (h a (by simp)), ih (fun ct hct => h ct (by simp [hct]))]; simp
+
+/-- in a well-formed polynomial every monomial is stored once, so the coefficient map is read off
+    the stored pairs -/
+theorem coeffOf_of_sorted (l : List (F × Term)) (hN : ∀ ct ∈ l, Term.Normal ct.2)
+    (hs : l.Pairwise (fun a b => Term.cmp a.2 b.2 = .lt)) : ∀ ct ∈ l, coeffOf l ct.2 = ct.1 := by
+  induction l with
+  | nil => intro ct hct; simp at hct
+  | cons a l ih =>
+    rw [List.pairwise_cons] at hs
+    have hne : ∀ b ∈ l, b.2 ≠ a.2 := by
+      intro b hb heq
+      have h1 := hs.1 b hb
+      rw [heq, (cmp_eq_iff a.2 a.2 (hN a (by simp)) (hN a (by simp))).2 rfl] at h1
+      cases h1
+    intro ct hct
+    rw [coeffOf_cons]
+    rcases List.mem_cons.1 hct with rfl | hct
+    · rw [if_pos rfl, coeffOf_eq_zero l _ hne]; simp
+    · rw [if_neg (fun h => hne ct hct h.symm), ih (fun c hc => hN c (by simp [hc])) hs.2 ct hct]; simp
+
+end Mv7
+
+end Ark.Mle
